@@ -20,14 +20,16 @@ RULE = ("case = (fee percentage, minimum fee, quote precision, base precision, s
         "oracle is evaluated after every fill. Distinct = distinct cases; non-trivial = at least two fills.")
 ASSUMPTIONS = [
     "N <= 6 (quick) / 7 (thorough) units; prices from {33.337, 100, 1234.5678, 0.07} (quantised to the quote precision)",
-    "percentages {0, 0.1, 0.25, 1, 2.5, 99.99}, minimum fees {0, 0.01, 1, 5}, quote precision {0, 2, 8}, base precision {0, 2}",
+    "percentages {0, 0.1, 0.25, 1, 2.5, 99.99, 0.075, 12.345}, minimum fees {0, 0.01, 1, 5}, quote precision {0, 2, 8}, base "
+    "precision {0, 2}; precision configured through set_pair_info, through default_pair_info only, or derived from the "
+    "symbols' precisions; two pairs sharing the quote symbol and a cross pair quoted in another pair's base symbol",
     "partial fills are produced with VolumeShareImpact(100, 0): each bar's volume is the size of the next part",
 ]
 BOUNDS = {"quick": dict(max_units=6), "thorough": dict(max_units=7)}
 EXPLANATION = ("bounded exhaustive enumeration of fill sequences against the real exchange; every case is an "
                "implementation run")
 P = PAIRS[0]
-PCTS = ("0", "0.1", "0.25", "1", "2.5", "99.99")
+PCTS = ("0", "0.1", "0.25", "1", "2.5", "99.99", "0.075", "12.345")  # incl. rates that are not whole basis points
 MINS = ("0", "0.01", "1", "5")
 PRICES = ("33.337", "100", "1234.5678", "0.07")
 
@@ -49,20 +51,36 @@ def scenarios(tier, seed):
             for qp in (0, 2, 8):
                 for bp in (0, 2):
                     out.append(("pct", pct, mn, qp, bp))
+    # the other two ways of configuring precision (smaller N: the arithmetic is the same, the configuration path is not)
+    for conf in ("dpi", "derived"):
+        for pct in ("0.25", "12.345"):
+            for mn in ("0", "1"):
+                for qp, bp in ((0, 0), (8, 2), (3, 1)):
+                    out.append(("pct", pct, mn, qp, bp, conf))
     return out
 
 
-def run_case(fee, qp, bp, side, parts, prices):
+def run_case(fee, qp, bp, side, parts, prices, conf="pair"):
     """Returns list of (clause, detail) and the number of fills."""
+    try:
+        return _run_case(fee, qp, bp, side, parts, prices, conf)
+    except Exception as x:  # noqa: nothing in these cases is a request the exchange may refuse
+        return [("internal-error", f"{type(x).__name__}: {x}")], 0
+
+
+def _run_case(fee, qp, bp, side, parts, prices, conf):
     bad = []
     d = bs.backtesting_dispatcher()
     fs = fees.NoFee() if fee is None else fees.Percentage(D(fee[0]), D(fee[1]))
+    kw = dict(default_pair_info=bs.PairInfo(bp, qp)) if conf == "dpi" else {}
     e = ex.Exchange(d, {"USD": D(10 ** 12), "BTC": D(10 ** 6)}, fee_strategy=fs,
-                    liquidity_strategy_factory=lambda: liquidity.VolumeShareImpact(D(100), D(0)))
+                    liquidity_strategy_factory=lambda: liquidity.VolumeShareImpact(D(100), D(0)), **kw)
     e.add_bar_source(bs.FifoQueueEventSource())
-    e.set_pair_info(P, bs.PairInfo(bp, qp))
-    e.set_symbol_precision("BTC", bp)
-    e.set_symbol_precision("USD", qp)
+    if conf == "pair":
+        e.set_pair_info(P, bs.PairInfo(bp, qp))
+    if conf != "dpi":
+        e.set_symbol_precision("BTC", bp)
+        e.set_symbol_precision("USD", qp)
     unit = D(1).scaleb(-bp)
     uq = D(1).scaleb(-qp)
     n = sum(parts)
@@ -76,6 +94,13 @@ def run_case(fee, qp, bp, side, parts, prices):
     t = 1
     nfills = 0
     prev_fee = D(0)
+    # a bar without volume: the order does not trade, so it pays nothing
+    t += 1
+    d._set_now(T(t))
+    call(e._on_bar_event(bs.BarEvent(T(t), bs.Bar(T(t - 1), P, D(100), D(100), D(100), D(100), D(0)))))
+    info0 = call(e.get_order_info(oid))
+    if info0.amount_filled == 0 and any(info0.fees.values()):
+        bad.append(("fee-without-trade", f"fees {info0.fees} on an order that has not traded"))
     for part, price in zip(parts, prices):
         t += 1
         d._set_now(T(t))
@@ -108,8 +133,8 @@ def run_two_pairs(sc, res):
     of ITS pair, whatever was traded before."""
     from worlds.exch import PAIRS as ALLP
     _, pct, mn = sc
-    P1, P2 = ALLP[0], ALLP[1]
-    for (qp1, qp2) in ((2, 6), (6, 2), (0, 8), (2, 2)):
+    for (P1, P2) in ((ALLP[0], ALLP[1]), (ALLP[0], ALLP[2])):  # ETH/USD shares the quote symbol; ETH/BTC is quoted in BTC
+      for (qp1, qp2) in ((2, 6), (6, 2), (0, 8), (2, 2)):
         for order in ((0, 1), (1, 0), (0, 1, 0), (1, 0, 1)):
             for price in ("33.337", "0.071234", "15061.72"):
                 d = bs.backtesting_dispatcher()
@@ -119,9 +144,9 @@ def run_two_pairs(sc, res):
                 precs = {0: qp1, 1: qp2}
                 e.set_pair_info(P1, bs.PairInfo(0, qp1))
                 e.set_pair_info(P2, bs.PairInfo(0, qp2))
-                e.set_symbol_precision("BTC", 0)
+                e.set_symbol_precision("BTC", 0 if P2.quote_symbol == "USD" else qp2)
                 e.set_symbol_precision("ETH", 0)
-                e.set_symbol_precision("USD", max(qp1, qp2))
+                e.set_symbol_precision("USD", max(qp1, qp2) if P2.quote_symbol == "USD" else qp1)
                 t = 0
                 bad = []
                 for which in order:
@@ -145,11 +170,14 @@ def run_two_pairs(sc, res):
                     if got != exp:
                         bad.append(("fee-amount", f"pair with quote precision {qp}: quote {info.quote_amount_filled}, fees {got}, "
                                     f"expected {exp}"))
-                case = dict(kind="two-pairs", fee=[pct, mn], quote_precisions=[qp1, qp2], order_of_pairs=list(order), price=price)
+                    if any(s_ != pair.quote_symbol and v for s_, v in info.fees.items()):
+                        bad.append(("fee-symbol", f"order on {pair} charged fees in {sorted(info.fees)}"))
+                case = dict(kind="two-pairs", fee=[pct, mn], quote_precisions=[qp1, qp2], order_of_pairs=list(order), price=price,
+                            second_pair=str(P2))
                 res.executions += 1
                 res.transitions += 2 * len(order)
                 res.validated += 1
-                key = h64(("two-pairs", sc, qp1, qp2, order, price))
+                key = h64(("two-pairs", sc, str(P2), qp1, qp2, order, price))
                 res.states.add(key)
                 res.nontrivial.add(key)
                 res.outcomes["two-pairs"] += 1
@@ -168,8 +196,11 @@ def run_scenario(sc, tier):
         fee = None
         qp, bp = sc[1], sc[2]
     else:
-        _, pct, mn, qp, bp = sc
+        pct, mn, qp, bp = sc[1:5]
         fee = (pct, mn)
+    conf = sc[5] if len(sc) > 5 else "pair"
+    if conf != "pair":
+        maxn = min(maxn, 3)
     prices = [str(D(p).quantize(D(1).scaleb(-qp))) for p in PRICES]
     prices = [p for p in dict.fromkeys(prices) if D(p) > 0][:3]
     for side in ("B", "S"):
@@ -180,7 +211,7 @@ def run_scenario(sc, tier):
                 else:
                     seqs = [tuple(prices[(i + k) % len(prices)] for i in range(len(parts))) for k in range(len(prices))]
                 for ps in seqs:
-                    bad, nfills = run_case(fee, qp, bp, side, parts, ps)
+                    bad, nfills = run_case(fee, qp, bp, side, parts, ps, conf)
                     res.executions += 1
                     res.transitions += len(parts) + 1
                     res.validated += 1
@@ -190,7 +221,7 @@ def run_scenario(sc, tier):
                         res.nontrivial.add(key)
                     res.outcomes[f"{min(nfills, 3)}+ fills" if nfills >= 3 else f"{nfills} fills"] += 1
                     case = dict(fee=None if fee is None else list(fee), qp=qp, bp=bp, side=side, parts=list(parts),
-                                prices=list(ps))
+                                prices=list(ps), conf=conf)
                     if not res.samples and nfills >= 2:
                         res.samples.append(case)
                     for clause, detail in bad:
@@ -205,5 +236,5 @@ def replay(rep):
         return [v["message"] for v in res.violations][:5]
     fee = None if rep["fee"] is None else tuple(rep["fee"])
     print("case:", rep)
-    bad, _ = run_case(fee, rep["qp"], rep["bp"], rep["side"], tuple(rep["parts"]), tuple(rep["prices"]))
+    bad, _ = run_case(fee, rep["qp"], rep["bp"], rep["side"], tuple(rep["parts"]), tuple(rep["prices"]), rep.get("conf", "pair"))
     return [f"{c}: {d}" for c, d in bad]
